@@ -180,9 +180,16 @@ fn long_pair(rng: &mut Rng, lo: usize, hi: usize, short_hi: usize, kind: usize) 
             (a, b)
         }
         3 => {
-            // long against short (either could be empty)
+            // long against short (either could be empty); half of the time the short text is written in letters the
+            // long one does not contain (otherwise it is almost surely a subsequence of the long text and the distance
+            // is just the length difference, which a lower-bound shortcut would also return)
             let m = rng.below(short_hi + 1);
-            (rand_units(rng, n, false), rand_units(rng, m, false))
+            let short: Vec<&'static str> = if rng.chance(1, 2) {
+                (0..m).map(|_| *rng.pick(&["x", "y", "z", " ", "x"])).collect()
+            } else {
+                rand_units(rng, m, false)
+            };
+            (rand_units(rng, n, false), short)
         }
         4 => {
             // long against a short EXCERPT with a few edits (the prefix distance is small)
